@@ -501,6 +501,13 @@ func (m *SrvMonitor) Step(trx int64, frame []byte, obs Obs, op string) {
 			boundMaybe := boundSure || (maybe != nil && maybe.addr == IPU32(want))
 			if rep == nil {
 				m.fail("C04", "request-unanswered", "a well-formed REQUEST selecting this server / renewing by unicast for an in-network address got no answer", fmt.Sprintf("class=%s want=%s", class, want))
+				if boundSure && !foreign(IPU32(want)) && trx <= sureEnd(sure, st, trx) { // it ARRIVED while the grant was running
+					what := "a REQUEST for the address the client holds (running lease) got no answer"
+					if sure != nil && !sure.ack {
+						what = "a REQUEST for an address offered within the hold time got no answer"
+					}
+					m.fail("C05", "request-dropped-while-bound", what, fmt.Sprintf("class=%s want=%s", class, want))
+				}
 			} else if !boundMaybe && rep.Type != 6 {
 				m.fail("C04", "nak-missing", "a well-formed REQUEST for an in-network address the sender is not bound to was not answered with NAK", obs.Answer())
 			} else if boundSure && rep.Type == 6 && !foreign(IPU32(want)) && obs.Tend <= sureEnd(sure, st, trx) {
